@@ -446,7 +446,7 @@ def r_new_valid(rep, prog):
 
     for where, t, how in atoms:
         neg = False
-        core_t = t
+        core_t = lib.inline_pure(prog, t, exclude=("llfree::MetaData::valid::overlap",))
         if core_t[0] == "un" and core_t[1] == "Not":
             neg = True
             core_t = core_t[2]
